@@ -1309,6 +1309,23 @@ def loop_fragment_cases(rnd, n):
                         L.append("%s%s%s %s;" % (pre, name, args, ", ".join("q[%d]" % x for x in rnd.sample(range(nq), nqb))))
             else:
                 L.append(op(None, 0, -1))
+        if rnd.random() < 0.3:
+            # a measurement-conditioned block with library gates, modifiers and closed parameters inside (Lang/BranchProofs.v)
+            def bst():
+                c3 = rnd.random()
+                if c3 < 0.3:
+                    return "%s q[%d];" % (rnd.choice(g1), rnd.randrange(nq))
+                if c3 < 0.5:
+                    return "%s @ %s q[%d];" % (rnd.choice(["inv", "pow(2)"]), rnd.choice(["s", "t", "x", "h"]), rnd.randrange(nq))
+                if c3 < 0.7:
+                    return "%s(%s) q[%d];" % (rnd.choice(gp), rnd.choice(PEXPR), rnd.randrange(nq))
+                x, y = rnd.sample(range(nq), 2)
+                return "%s q[%d], q[%d];" % (rnd.choice(["cnot", "cx", "ch", "cz"]), x, y)
+            cb = rnd.randrange(nc)
+            cond = rnd.choice(["c[%d] == true" % cb, "c[%d] == false" % cb, "c == %d" % rnd.randint(0, 2 ** nc - 1)])
+            els = " else { %s }" % " ".join(bst() for _ in range(rnd.randint(1, 2))) if rnd.random() < 0.4 else ""
+            L.append("c[%d] = measure q[%d];" % (cb, rnd.randrange(nq)))
+            L.append("if (%s) { %s }%s" % (cond, " ".join(bst() for _ in range(rnd.randint(1, 3))), els))
         if rnd.random() < 0.15:
             # a global phase without operands: folded to its value, repeated / negated by its modifiers
             L.append("%sgphase(%s);" % (rnd.choice(["", "", "inv @ ", "pow(2) @ ", "pow(0) @ "]), rnd.choice(PEXPR)))
